@@ -17,6 +17,7 @@ import (
 	"strings"
 	"sync"
 	"testing"
+	"time"
 
 	"pgregory.net/rapid"
 )
@@ -318,6 +319,12 @@ type TB interface {
 // minimal case last) and stops the current case.
 func (r *R) Fail(t TB, check string, c any, err error) {
 	t.Helper()
+	if strings.Contains(err.Error(), "resource_error(memory)") {
+		// the engine consults the process-wide Go memory limit (engine/malloc.go) before it allocates argument
+		// vectors: once this process is over the limit the driver sets, every larger allocation of every later
+		// case is refused. That is about the state of the harness process, not about the case: inconclusive.
+		err = fmt.Errorf("infrastructure: the engine reported resource_error(memory) under the shard's memory limit: %v", err)
+	}
 	if strings.HasPrefix(err.Error(), "infrastructure:") {
 		// the harness itself failed: never a verdict (the shard ends abnormally, the driver exits 2)
 		b, _ := json.Marshal(c)
@@ -335,6 +342,25 @@ func (r *R) FailFatal(t *testing.T, check string, c any, err error) {
 	fmt.Printf("VIOLATION (fatal, not shrunk) %s/%s: %v\n", r.res.Property, check, err)
 	r.finish(true)
 	os.Exit(3)
+}
+
+// Slow arms a timer for one case: if the returned stop function is not called within the limit, the case
+// is appended to <VERIF_OUT>.slow (diagnostics only: which generated case is expensive; never a verdict).
+func (r *R) Slow(c any) func() {
+	out := os.Getenv("VERIF_OUT")
+	if out == "" {
+		return func() {}
+	}
+	start := time.Now()
+	tm := time.AfterFunc(20*time.Second, func() {
+		b, _ := json.Marshal(c)
+		f, err := os.OpenFile(out+".slow", os.O_APPEND|os.O_CREATE|os.O_WRONLY, 0o644)
+		if err == nil {
+			fmt.Fprintf(f, "%s still running after %v: %s\n", time.Now().Format(time.RFC3339), time.Since(start), b)
+			f.Close()
+		}
+	})
+	return func() { tm.Stop() }
 }
 
 // Record records a violation without stopping.
